@@ -4,6 +4,8 @@ import (
 	"fmt"
 	"os"
 	"sync"
+
+	"github.com/KevoDB/kevo/pkg/verifhook"
 )
 
 // DefaultFileTracker is the default implementation of FileTracker
@@ -78,6 +80,7 @@ func (f *DefaultFileTracker) CleanupObsoleteFiles() error {
 			continue
 		}
 
+		verifhook.At("compaction.cleanup.before_remove")
 		// Try to delete the file
 		if err := os.Remove(path); err != nil {
 			if !os.IsNotExist(err) {
